@@ -197,6 +197,10 @@ func init() {
 			}
 		}
 	}
+	// two tips: the smallest input there is; flag: a tree object with a past (indexed, then one tip grafted on a
+	// branch without refreshing anything) handed to the library function
+	c20Configs = append(c20Configs, c20Config{kind: "shuffletips", n: 2}, c20Config{kind: "shuffletips", n: 2, lib: true},
+		c20Config{kind: "shuffletips", n: 3, lib: true, flag: true}, c20Config{kind: "shuffletips", n: 4, lib: true, flag: true})
 	for _, n := range []int{3, 4} {
 		c20Configs = append(c20Configs, c20Config{kind: "shuffletips", n: n}, c20Config{kind: "shuffletips", n: n, lib: true})
 		c20Configs = append(c20Configs, c20Config{kind: "rotate", n: n}, c20Config{kind: "rotate", n: n, lib: true})
@@ -441,6 +445,18 @@ func runC20(c *Ctx, idx int, o *Obs) {
 			var s string
 			if cfg.lib {
 				t := mustParse(text)
+				if cfg.flag {
+					// read with one tip less, indexed, the last tip grafted afterwards
+					t = mustParse("(" + strings.Join(tips[:cfg.n-1], ",") + ");")
+					if err := t.ReinitIndexes(); err != nil {
+						return "", err
+					}
+					nt := t.NewNode()
+					nt.SetName(tips[cfg.n-1])
+					if _, _, _, err := t.GraftTipOnEdge(nt, t.Edges()[0]); err != nil {
+						return "", err
+					}
+				}
 				rand.Seed(seed)
 				if cfg.kind == "shuffletips" {
 					t.ShuffleTips()
